@@ -615,6 +615,54 @@ def w_ctor(ctx, rng, i):
     ctx.bin("ctor.form", form)
 
 
+NARROW = [np.int8, np.int16, np.int32, np.int64, np.uint8, np.uint16, np.float16, np.float32, np.float64, np.complex64, np.complex128]      # (bool is not a sample dtype of the property: numpy's bool '+' is a logical or)
+
+
+def w_ctor_dtypes(ctx, rng, i):
+    """signal and noise handed over in any pair of numpy dtypes (what files, ADC captures and other libraries deliver): the object
+    must hold both — values as given, up to the exact conversion into their common numpy result type — for both classes and layouts;
+    then +, slicing and copy() on it agree with the array-pair model."""
+    sdt = NARROW[i % len(NARROW)]
+    ndt = NARROW[(i // len(NARROW)) % len(NARROW)]
+    cls = ["el", "opt1", "opt2"][(i // len(NARROW) ** 2) % 3]
+    n = int(rng.choice([1, 3, 8]))
+    shape = (2, n) if cls == "opt2" else (n,)
+
+    def arr(dt):
+        dt = np.dtype(dt)
+        if dt.kind == "b":
+            return rng.integers(0, 2, shape).astype(bool)
+        if dt.kind in "iu":
+            lo = 0 if dt.kind == "u" else -9
+            return rng.integers(lo, 10, shape).astype(dt)
+        a = np.round(rng.normal(0, 2, shape), 2) + rng.choice([0.25, 0.5, 0.6])        # fractional parts: a truncation shows
+        if dt.kind == "c":
+            a = a + 1j * (np.round(rng.normal(0, 2, shape), 2) + 0.75)
+        return a.astype(dt)
+    S, N = arr(sdt), arr(ndt)
+    ctx.describe(cls=cls, n=n, signal_dtype=str(np.dtype(sdt)), noise_dtype=str(np.dtype(ndt)))
+    common = np.result_type(S, N)
+    with core.quiet():
+        x = T.electrical_signal(S.copy(), N.copy()) if cls == "el" else T.optical_signal(S.copy(), N.copy())
+    ok = contract_of(x) is None
+    ctx.check("ctor.contract", ok, f"{cls}(signal {S.dtype}, noise {N.dtype}): {contract_of(x)}")
+    if ok:
+        # conversion into the common type is exact for every pair except complex64/float32 <- int64 and the like (where numpy itself
+        # chooses float64 / complex128): compare in complex128 with a tolerance of one unit of the narrower type
+        tol = 1e-3 if "16" in str(S.dtype) + str(N.dtype) and ("float16" in (str(S.dtype), str(N.dtype))) else 1e-6
+        good = np.allclose(np.asarray(x.signal, complex), S.astype(complex), rtol=tol, atol=tol) and np.allclose(np.asarray(x.noise, complex), N.astype(complex), rtol=tol, atol=tol)
+        ctx.check("ctor.values", good, f"{cls} built from signal dtype {S.dtype} and noise dtype {N.dtype} does not hold the given values (stored dtypes {x.signal.dtype}/{x.noise.dtype}; numpy's common type is {common})",
+                  signal=S, noise=N, stored_signal=x.signal, stored_noise=x.noise)
+        m = Model("el" if cls == "el" else "opt", x.signal, x.noise)
+        with core.quiet():
+            y = x + x
+        compare(ctx, y, model_addsub(m, m, 1, False)[1], f"{cls}[{S.dtype}/{N.dtype}] + itself")
+        with core.quiet():
+            c = x.copy()
+        compare(ctx, c, m, f"{cls}[{S.dtype}/{N.dtype}].copy()")
+    ctx.case(("ctordt", cls, str(np.dtype(sdt)), str(np.dtype(ndt))), sample=dict(cls=cls, signal_dtype=str(np.dtype(sdt)), noise_dtype=str(np.dtype(ndt))) if i < 2 else None)
+
+
 def w_ctor_rejects(ctx, rng, i):
     n = int(rng.integers(2, 6))
     with core.quiet():
@@ -656,6 +704,7 @@ WORKLOADS = [
     Workload("trees", w_trees, 12000, 400000, budget=120),
     Workload("ctor", w_ctor, 1000, 20000),
     Workload("big_ints", w_big_ints, 48, 2400),
+    Workload("ctor_dtypes", w_ctor_dtypes, 3 * 121, 3 * 121 * 10),
     Workload("ctor_rejects", w_ctor_rejects, 8, 80),
     Workload("devices_under_invariant", w_devices_under_invariant, 20, 400),
     Workload("repo_tests", lambda ctx, rng, i: core.run_repo_tests(ctx), 1, 1, budget=1800, tiers=("thorough",)),
